@@ -586,6 +586,14 @@ func (g *Gen) applyContract(t callTarget, c *ssa.CallCommon, args []string, recv
 			}
 			if mc, ok := unwrapClosure(c.Args[ai]); ok {
 				if cf, ok := mc.Fn.(*ssa.Function); ok {
+					// a callback with a declared frame made of map entries of captured maps: those maps' rows are havocked
+					if cc := g.specs.Contracts[funcKey(cf)]; cc != nil && cc.HasAssigns {
+						if p2, ok := g.havocCallbackFrame(post, cc, guard); ok {
+							post = p2
+							g.vc.abstract(fmt.Sprintf("callback %s passed to %s: its declared frame (whole rows of the designated maps) is added to the callee's frame", funcKey(cf), t.key))
+							break
+						}
+					}
 					ws := g.w.writeSet(cf, g)
 					if ws.All {
 						post = g.havocAll(post, guard, "callback "+funcKey(cf)+" passed to "+t.key+" ("+ws.Why+")")
@@ -853,4 +861,38 @@ func originKey(fn *ssa.Function) string {
 		return o.String()
 	}
 	return fn.String()
+}
+
+// havocCallbackFrame: the callback's assigns clause consists of entries m[k] of maps m named in the caller's scope
+// (captured variables); the key is a callback parameter, so the whole row of each such map is havocked.
+func (g *Gen) havocCallbackFrame(h *Heap, cc *Contract, guard string) (*Heap, bool) {
+	env := g.envAt(h, g.blockCur)
+	for _, d := range cc.allAssigns() {
+		e, err := ParseExpr(d)
+		if err != nil {
+			return nil, false
+		}
+		ix, ok := e.(*EIndex)
+		if !ok {
+			return nil, false
+		}
+		b, err := env.EvalVal(ix.X)
+		if err != nil {
+			return nil, false
+		}
+		mt, ok := b.Ty.Underlying().(*types.Map)
+		if !ok {
+			return nil, false
+		}
+		ks, vs := sortOf(mt.Key()), sortOf(mt.Elem())
+		for _, c := range []cellTarget{
+			{varName: mapDomVar(mt), sort: ArrSort(SInt, ArrSort(ks, SBool)), addrs: []string{b.T}},
+			{varName: mapValVar(mt), sort: ArrSort(SInt, ArrSort(ks, vs)), addrs: []string{b.T}},
+		} {
+			cur := h.Get(c.varName, c.sort)
+			nv := g.vc.Fresh("cbhavoc."+c.varName, elemSortOfArr(c.sort, 1))
+			h = h.Set(c.varName, c.sort, Sto(cur, c.addrs[0], nv))
+		}
+	}
+	return h, true
 }
